@@ -691,42 +691,38 @@ class CSemantics:
     def on_number(self, value, location):
         """React on integer numeric literal"""
         # Get value from string:
-        value, type_specifiers = utils.cnum(value)
-
+        text = value
+        value, type_specifiers = utils.cnum(text)
         assert isinstance(value, int)
-        if type_specifiers:
-            typ = self.get_type(type_specifiers)
+
+        # The type of an integer constant is the first type of a list
+        # in which its value fits (C99 6.4.4.1). The list depends on the
+        # suffix, and only octal and hexadecimal constants without 'u'
+        # suffix may become unsigned.
+        is_unsigned = "unsigned" in type_specifiers
+        is_decimal = not text.startswith("0")
+        ranks = [["int"], ["long"], ["long", "long"]]
+        candidates = []
+        for rank in ranks[type_specifiers.count("long") :]:
+            if not is_unsigned:
+                candidates.append(rank)
+            if is_unsigned or not is_decimal:
+                candidates.append(["unsigned"] + rank)
+        if not is_unsigned and is_decimal:
+            # Too big for long long: no standard type. Be lenient:
+            candidates.append(["unsigned", "long", "long"])
+
+        for candidate in candidates:
+            typ = self.get_type(candidate)
+            if value <= self.context.limit_max(typ):
+                break
         else:
-            # Use larger type to fit the value if required:
-            # Try unsigned long,
-            ulonglong_type = self.get_type(["unsigned", "long", "long"])
-            longlong_type = self.get_type(["long", "long"])
-            ulong_type = self.get_type(["unsigned", "long"])
-            long_type = self.get_type(["long"])
-            uint_type = self.get_type(["unsigned", "int"])
-
-            if value <= self.context.limit_max(self.int_type):
-                typ = self.int_type
-            elif value <= self.context.limit_max(uint_type):
-                typ = uint_type
-            elif value <= self.context.limit_max(long_type):
-                typ = long_type
-            elif value <= self.context.limit_max(ulong_type):
-                typ = ulong_type
-            elif value <= self.context.limit_max(longlong_type):
-                typ = longlong_type
-            else:
-                typ = ulonglong_type
-
-        assert typ.is_integer
-        # Check limits of integer
-        # Note, an integer is always positive
-        max_value = self.context.limit_max(typ)
-        if value > max_value:
             self.error(
-                f"Integer value too big for type ({max_value})",
+                f"Integer value too big for type ({self.context.limit_max(typ)})",
                 location,
             )
+
+        assert typ.is_integer
         return expressions.NumericLiteral(value, typ, location)
 
     def on_float(self, value, location):
